@@ -343,6 +343,12 @@ func (u *Unit) execCallVals(st *State, fr *Frame, site ssa.Instruction, c *ssa.C
 			u.abstracted("extern call without contract, scalar arguments only (results havocked, heap kept): " + callee.String())
 			u.assume("package-boundary framing: an external function without a contract that receives only scalars does not modify this module's objects")
 		}
+		if v, ok := site.(ssa.Value); ok {
+			if u.unspecResult == nil {
+				u.unspecResult = map[ssa.Value]string{}
+			}
+			u.unspecResult[v] = callee.String()
+		}
 		u.unknownCall(st, fr, site, sig, desigs, argT, ptrArg, k)
 		return
 	}
@@ -1598,8 +1604,27 @@ func (u *Unit) builtin(st *State, fr *Frame, site ssa.Instruction, c *ssa.CallCo
 		u.doAppend(st, fr, site, c, args, k)
 		return
 	case "copy":
-		u.abstracted("builtin copy")
-		k(st, fr, Val{T: u.FreshOfType(st, "copyn", types.Typ[types.Int])})
+		// copy(dst, src): n = min(len(dst), len(src)) elements are written; which values is
+		// not modelled, so everything inside the object dst points into is forgotten
+		u.abstracted("builtin copy (count exact, copied contents havocked)")
+		n := u.FreshOfType(st, "copyn", types.Typ[types.Int])
+		dl := App("vlen", SInt, args[0].T)
+		var sl Term
+		if args[1].T.Sort == SStr {
+			sl = App("slen", SInt, args[1].T)
+		} else {
+			sl = App("vlen", SInt, args[1].T)
+		}
+		st.Assume(Eq(n, Ite(Le(dl, sl), dl, sl)))
+		if ds, ok := c.Args[0].Type().Underlying().(*types.Slice); ok {
+			keys := map[string]bool{}
+			u.leafKeys(ds.Elem(), keys)
+			obj := App("aobj", SV, u.sptrOf(args[0].T))
+			for key := range keys {
+				u.havocMem(st, key, func(addr Term) Term { return And(Gt(n, IntLit(0)), Eq(App("aobj", SV, addr), obj)) })
+			}
+		}
+		k(st, fr, Val{T: n})
 		return
 	case "delete":
 		mt := c.Args[0].Type().Underlying().(*types.Map)
